@@ -116,6 +116,30 @@ def generate(ctx):
         eta = ETAS[int(rng.integers(0, 6))]
         yield 'solve', dict(cfg, eta=eta, state={'kind': 'random', 'seed': int(rng.integers(0, 2 ** 31))},
                             ncols=(6 if quick else 8), cseed=int(rng.integers(0, 2 ** 31)))
+    # other layouts of the modal arrays: padded (base_shape_multiple), total > longitude wavenumbers + 1,
+    # tall / wide grids with a tiny truncation, and (z, x, y) device meshes (default method -> cumulative sums,
+    # sharded cumsum); step sizes 0 and over six decades
+    layouts = [(3, {'impl': 'fast4'}, 0.0), (2, {'lw': 3, 'tw': 6}, 1e-3), (4, {'impl': 'fast', 'lon': 16, 'lat': 8, 'mesh': [2, 2, 2]}, -1.0),
+               (2, {'lw': 2, 'tw': 3, 'lon': 256, 'lat': 4}, 1e3)]
+    if not quick:
+        layouts += [(3, {'impl': 'fast8'}, 37.0), (2, {'impl': 'zeroimag'}, -0.01), (2, {'lw': 2, 'tw': 3, 'lon': 4, 'lat': 256}, -1e3),
+                    (4, {'impl': 'fast', 'lon': 16, 'lat': 8, 'mesh': [4, 1, 2]}, 0.01), (6, {'impl': 'fast', 'lon': 16, 'lat': 8, 'mesh': [2, 1, 1]}, 1.0),
+                    (3, {'lw': 4, 'tw': 5, 'lon': 6, 'lat': 6}, -1e-3), (1, {'impl': 'fast4'}, 0.0), (5, {}, 0.0), (5, {}, 1e3), (5, {}, -1e-3)]
+    for K, g, eta in layouts:
+        cfg = {'b': _dyadic_boundaries(rng, K).tolist(), 'tref': (rng.integers(200 * 4, 300 * 4, size=K).astype(float) / 4).tolist(),
+               'R': [287.0, 3.5][K % 2], 'kappa': [2.0 / 7, 0.25][K % 2], 'radius': [1.0, 2.0][K % 2], 'grid': g}
+        ctx.count('layout:' + json.dumps(g, sort_keys=True)); ctx.count(f'eta={eta}')
+        yield 'matrix', dict(cfg, eta=eta)
+        yield 'solve', dict(cfg, eta=eta, state={'kind': 'onehot', 'offset': 0, 'amp': 1.0}, ncols=(6 if quick else 8),
+                            cseed=int(rng.integers(0, 2 ** 31)))
+        yield 'solve', dict(cfg, eta=eta, state={'kind': 'random', 'seed': int(rng.integers(0, 2 ** 31))},
+                            ncols=(6 if quick else 8), cseed=int(rng.integers(0, 2 ** 31)))
+    # input forms, state across calls, jit / vmap / batch axes, rejected options
+    for K, vary, eta in ([(4, 'tref', 1.0), (2, 'radius', -0.5)] if quick else
+                         [(4, 'tref', 1.0), (2, 'radius', -0.5), (1, 'kappa', 37.0), (3, 'R', -0.01), (5, 'matmul', 0.5), (3, 'tref', 0.0)]):
+        cfg = {'b': _dyadic_boundaries(rng, K).tolist(), 'tref': rng.integers(200, 300, size=K).astype(float).tolist(),
+               'R': 3.5, 'kappa': 0.25, 'radius': 1.0}
+        yield 'robust', dict(cfg, eta=eta, vary=vary, seed=int(rng.integers(0, 2 ** 31)))
     # the two vertical operators alone, on more layer counts
     for K in ([4, 8] if quick else [4, 6, 8, 12, 16]):
         b = _dyadic_boundaries(rng, K, 7).tolist()
@@ -138,23 +162,52 @@ def generate(ctx):
 # ---------------------------------------------------------------------------
 # construction helpers (cached: equal configurations share jitted/compiled ops)
 # ---------------------------------------------------------------------------
-_grids = {}
-def _grid(radius):
-    m = J()
-    if radius not in _grids:
-        _grids[radius] = m['sh'].Grid(longitude_wavenumbers=4, total_wavenumbers=5, longitude_nodes=12,
-                                      latitude_nodes=6, radius=radius)
-    return _grids[radius]
+DEFAULT_GRID = {'lw': 4, 'tw': 5, 'lon': 12, 'lat': 6, 'impl': 'real', 'mesh': None}
+_grids = {}; _meshes = {}
+def _mesh(shape):
+    """(z, x, y) device mesh on the forced host devices."""
+    import jax
+    shape = tuple(shape)
+    if shape not in _meshes:
+        n = int(np.prod(shape))
+        _meshes[shape] = jax.sharding.Mesh(np.array(jax.devices()[:n]).reshape(shape), ('z', 'x', 'y'))
+    return _meshes[shape]
+
+
+def _grid(radius, g=None):
+    import functools
+    m = J(); sh = m['sh']
+    g = dict(DEFAULT_GRID, **(g or {}))
+    key = json.dumps([radius, g], sort_keys=True)
+    if key not in _grids:
+        impl = {'real': sh.RealSphericalHarmonics, 'fast': sh.FastSphericalHarmonics,
+                'fast4': functools.partial(sh.FastSphericalHarmonics, base_shape_multiple=4),
+                'fast8': functools.partial(sh.FastSphericalHarmonics, base_shape_multiple=8),
+                'zeroimag': sh.RealSphericalHarmonicsWithZeroImag}[g['impl']]
+        kw = {'spmd_mesh': _mesh(g['mesh'])} if g['mesh'] else {}
+        _grids[key] = sh.Grid(longitude_wavenumbers=g['lw'], total_wavenumbers=g['tw'], longitude_nodes=g['lon'],
+                              latitude_nodes=g['lat'], radius=radius, spherical_harmonics_impl=impl, **kw)
+    return _grids[key]
+
+
+def _lam_ref(a, grid):
+    """Laplacian eigenvalues -l(l+1)/radius^2 recomputed from the grid definition; layouts padded in l carry
+    the implementation's value in the padding (those coefficients are not part of the truncation)."""
+    L = grid.modal_shape[1]; tw = dict(DEFAULT_GRID, **(a.get('grid') or {}))['tw']
+    l = np.arange(L, dtype=np.float64)
+    ref = -l * (l + 1) / (a['radius'] ** 2)
+    return np.where(l < tw, ref, np.asarray(grid.laplacian_eigenvalues, dtype=np.float64))
 
 
 _pes = {}
 def _primitive(a, matmul=None, with_time=False):
     m = J(); pe = m['pe']
-    key = json.dumps([a['b'], a['tref'], a['R'], a['kappa'], a['radius'], matmul, with_time])
+    key = json.dumps([a['b'], a['tref'], a['R'], a['kappa'], a['radius'], a.get('grid'), matmul, with_time], sort_keys=True)
     if key not in _pes:
-        grid = _grid(a['radius'])
+        grid = _grid(a['radius'], a.get('grid'))
         vert = m['sc'].SigmaCoordinates(np.asarray(a['b'], dtype=np.float64))
-        coords = m['cs'].CoordinateSystem(grid, vert)
+        msh = (a.get('grid') or {}).get('mesh')
+        coords = m['cs'].CoordinateSystem(grid, vert, spmd_mesh=_mesh(msh) if msh else None)
         specs = pe.PrimitiveEquationsSpecs(
             radius=a['radius'], angular_velocity=1.0, gravity_acceleration=1.0, ideal_gas_constant=a['R'],
             water_vapor_gas_constant=1.0, water_vapor_isobaric_heat_capacity=1.0, kappa=a['kappa'],
@@ -166,11 +219,11 @@ def _primitive(a, matmul=None, with_time=False):
     return _pes[key]
 
 
-def _cfg_arrs(p, eta, lam):
-    """Model arguments [ls, b, Tref, [R, kappa, eta, lam]] from the implementation's own tables."""
-    v = p.coords.vertical
-    return [np.log(v.centers), v.boundaries, p.reference_temperature,
-            [p.physics_specs.R, p.physics_specs.kappa, eta, lam]]
+def _cfg_arrs(a, eta, lam):
+    """Model arguments [ls, b, Tref, [R, kappa, eta, lam]] computed from the case arguments only (not from
+    attributes of the objects under test); log() is the only library function involved."""
+    b = np.asarray(a['b'], dtype=np.float64)
+    return [np.log((b[1:] + b[:-1]) / 2), b, np.asarray(a['tref'], dtype=np.float64), [a['R'], a['kappa'], eta, lam]]
 
 
 def _state(a, p, spec):
@@ -188,12 +241,19 @@ def _state(a, p, spec):
     return st[:K], st[K:2 * K], st[2 * K:], vort, q
 
 
-def _mkstate(div, T, lnps, vort, q, sim_time=None):
+def _mkstate(div, T, lnps, vort, q, sim_time=None, p=None):
     m = J(); jnp = m['jnp']; pe = m['pe']
     kw = dict(vorticity=jnp.asarray(vort), divergence=jnp.asarray(div), temperature_variation=jnp.asarray(T),
               log_surface_pressure=jnp.asarray(lnps), tracers={'q': jnp.asarray(q)})
-    if sim_time is None: return pe.State(**kw)
-    return pe.StateWithTime(sim_time=sim_time, **kw)
+    st = pe.State(**kw) if sim_time is None else pe.StateWithTime(sim_time=sim_time, **kw)
+    if p is not None and p.coords.spmd_mesh is not None:
+        st = p.coords.with_dycore_sharding(st)
+    return st
+
+
+def _eta_unit(eta):
+    """|eta| for turning M - I into |L| (eta = 0: M = I, any positive unit will do)."""
+    return abs(eta) if eta else 1.0
 
 
 def _stk(s):
@@ -237,10 +297,14 @@ def r_weights(ctx, a):
     m = J(); pe = m['pe']; jnp = m['jnp']
     c = m['sc'].SigmaCoordinates(np.asarray(a['b'], dtype=np.float64)); K = c.layers
     tref = np.asarray(a['tref'], dtype=np.float64); kappa = a['kappa']; R = a['R']
-    ls = np.log(c.centers); th = c.layer_thickness
-    arrs = [ls, c.boundaries, tref, [R, kappa, 0, 0]]
-    H = pe.get_temperature_implicit_weights(c, tref, kappa)
-    al = np.abs(pe.get_sigma_ratios(c)).max()
+    arrs = _cfg_arrs(a, 0, 0); ls = arrs[0]; th = np.diff(arrs[1])
+    tref_in = tref.copy(); tref_in.setflags(write=False)          # a read-only input must be enough (and stay unchanged)
+    H = pe.get_temperature_implicit_weights(c, tref_in, kappa)
+    ctx.oracle('inputs are not modified (reference temperature, level thickness)',
+               bool((tref_in == tref).all() and (c.layer_thickness == th).all() and (c.boundaries == arrs[1]).all()))
+    H2 = pe.get_temperature_implicit_weights(c, tref, kappa)
+    ctx.oracle('get_temperature_implicit_weights is a pure function (bit-identical on a second call)', bool((H == H2).all()))
+    al = np.abs(np.concatenate([np.diff(ls) / 2, [-ls[-1]]])).max()
     dT = (np.abs(np.diff(tref)) / (th[:-1] + th[1:])).max() if K > 1 else 0.0
     hs = float((abs(kappa) * np.abs(tref).max() * 2 * al / th.min() + 4 * dT) * th.max()) + 1e-300
     ctx.corr('get_temperature_implicit_weights', H, ctx.model.call(0, [K], arrs), scale=hs)
@@ -261,16 +325,30 @@ def r_weights(ctx, a):
     gd = np.asarray(pe.get_geopotential_diff(jnp.asarray(x), c, R, method='dense'))
     gs = np.asarray(pe.get_geopotential_diff(jnp.asarray(x), c, R, method='sparse'))
     ctx.oracle_close('geopotential operator: dense = cumulative-sum form', gd, gs, scale=sc_g)
+    # default keyword values / default method of the helper functions
+    ctx.exact('default kappa / R / method of the helpers',
+              [bool((pe.get_temperature_implicit_weights(c, tref) == pe.get_temperature_implicit_weights(c, tref, pe.KAPPA)).all()),
+               bool((pe.get_geopotential_weights(c) == pe.get_geopotential_weights(c, pe.IDEAL_GAS_CONSTANT)).all()),
+               bool((np.asarray(pe.get_temperature_implicit(jnp.asarray(x), c, tref, kappa)) == outs[0]).all()),
+               bool((np.asarray(pe.get_geopotential_diff(jnp.asarray(x), c, R)) == gd).all())], [True] * 4)
+    for bad in (np.ones(K + 1), np.ones((K, 1))):
+        try:
+            pe.get_temperature_implicit_weights(c, bad, kappa); rej = False
+        except ValueError:
+            rej = True
+        ctx.exact('reference temperature of the wrong shape is rejected', rej, True)
 
 
 def r_matrix(ctx, a):
     """_get_implicit_term_matrix vs model; np.linalg.inv hypotheses (table obligations)."""
     p = _primitive(a); K = p.coords.vertical.layers; eta = a['eta']
-    lam = p.coords.horizontal.laplacian_eigenvalues
+    lam = _lam_ref(a, p.coords.horizontal)
+    ctx.exact('laplacian_eigenvalues = -l(l+1)/radius^2 (recomputed from the grid definition)',
+              np.asarray(p.coords.horizontal.laplacian_eigenvalues, dtype=np.float64).tolist(), lam.tolist())
     Mx, Minv, S1, A, S2, B = _inverses(p, eta)
     ctx.exact('implicit matrix shape', list(Mx.shape), [len(lam), 2 * K + 1, 2 * K + 1])
     for l in range(len(lam)):
-        arrs = _cfg_arrs(p, eta, lam[l])
+        arrs = _cfg_arrs(a, eta, lam[l])
         ctx.corr(f'_get_implicit_term_matrix l={l}', Mx[l], ctx.model.call(2, [K], arrs), scale=float(np.abs(Mx[l]).max()))
         sm = ctx.model.call(6, [K], arrs)
         ctx.corr(f'I-GH, I-HG l={l}', np.concatenate([S1[l].ravel(), S2[l].ravel()]), sm,
@@ -285,10 +363,10 @@ def r_matrix(ctx, a):
     ctx.table_obligation('laplacian_eigenvalues <= 0', bool((lam <= 0).all()))
 
 
-def _model_cols(ctx, name, cmd, ints, p, eta, x_stk, out_stk, cols, extra, scale):
-    lam = p.coords.horizontal.laplacian_eigenvalues
+def _model_cols(ctx, name, cmd, ints, a, p, eta, x_stk, out_stk, cols, extra, scale):
+    lam = _lam_ref(a, p.coords.horizontal)
     for (mm, l) in cols:
-        arrs = _cfg_arrs(p, eta, lam[l]) + [x_stk[:, mm, l]] + [e[l].ravel() for e in extra]
+        arrs = _cfg_arrs(a, eta, lam[l]) + [x_stk[:, mm, l]] + [e[l].ravel() for e in extra]
         ctx.corr(name, out_stk[:, mm, l], ctx.model.call(cmd, ints, arrs), scale=scale)
 
 
@@ -297,19 +375,21 @@ def r_solve(ctx, a):
     pd = _primitive(a, 'dense'); ps = _primitive(a, 'sparse'); pn = _primitive(a, None)
     K = pd.coords.vertical.layers; eta = a['eta']; n = 2 * K + 1
     M_, L_ = pd.coords.horizontal.modal_shape
-    lam = pd.coords.horizontal.laplacian_eigenvalues
+    lam = _lam_ref(a, pd.coords.horizontal)
     div, T, lnps, vort, q = _state(a, pd, a['state'])
-    st = _mkstate(div, T, lnps, vort, q)
+    st = _mkstate(div, T, lnps, vort, q, p=pd)
     x = _stk(st)
     Mx, Minv, S1, A, S2, B = _inverses(pd, eta)
     cols = _pick_cols(M_, L_, a['ncols'], a['cseed'])
-    absL = np.abs(Mx - np.eye(n)) / abs(eta)                           # |L| entrywise, per l
+    Lm = (Mx - np.eye(n)) / eta if eta else _inverses(pd, 1.0)[0] - np.eye(n)
+    absL = np.abs(Lm)                                                  # |L| entrywise, per l
     sc_L = SLOP * float(np.einsum('lij,jml->iml', absL, np.abs(x)).max()) + 1e-300
     # --- implicit_terms: both vertical matmul strategies (and the default) vs model
     terms = {}
-    for name, p, sparse in (('dense', pd, 0), ('sparse', ps, 1), ('default', pn, 0)):
+    zsh = int(bool((a.get('grid') or {}).get('mesh')) and (a['grid']['mesh'][0] > 1))
+    for name, p, sparse in (('dense', pd, 0), ('sparse', ps, 1), ('default', pn, zsh)):
         t = p.implicit_terms(st); terms[name] = t
-        _model_cols(ctx, f'implicit_terms vertical_matmul_method={name}', 3, [K, sparse], p, eta, x, _stk(t), cols, [], sc_L)
+        _model_cols(ctx, f'implicit_terms vertical_matmul_method={name}', 3, [K, sparse], a, p, eta, x, _stk(t), cols, [], sc_L)
         ctx.exact(f'implicit_terms({name}): vorticity and tracers are zero',
                   [float(np.abs(np.asarray(t.vorticity)).max()), float(np.abs(np.asarray(t.tracers['q'])).max())], [0.0, 0.0])
     Ld = _stk(terms['dense'])
@@ -319,9 +399,9 @@ def r_solve(ctx, a):
                      scale=float(np.abs(x).max() + abs(eta) * sc_L))
     # linearity (second state from the same spec, shifted)
     div2, T2, lnps2, vort2, q2 = _state(a, pd, {'kind': 'random', 'seed': a['cseed']})
-    st2 = _mkstate(div2, T2, lnps2, vort2, q2)
+    st2 = _mkstate(div2, T2, lnps2, vort2, q2, p=pd)
     for name, p in (('dense', pd), ('sparse', ps)):
-        comb = _mkstate(2.5 * div - 0.75 * div2, 2.5 * T - 0.75 * T2, 2.5 * lnps - 0.75 * lnps2, vort, q)
+        comb = _mkstate(2.5 * div - 0.75 * div2, 2.5 * T - 0.75 * T2, 2.5 * lnps - 0.75 * lnps2, vort, q, p=pd)
         lhs = _stk(p.implicit_terms(comb)); rhs = 2.5 * _stk(terms[name]) - 0.75 * _stk(p.implicit_terms(st2))
         sc2 = SLOP * float(np.einsum('lij,jml->iml', absL, 2.5 * np.abs(x) + 0.75 * np.abs(_stk(st2))).max()) + 1e-300
         ctx.oracle_close(f'implicit_terms is linear ({name})', lhs, rhs, scale=sc2)
@@ -341,9 +421,9 @@ def r_solve(ctx, a):
             ctx.oracle_close(f'implicit_inverse(x - eta*implicit_terms(x)) = x  [method={meth}]', out, x, scale=sc)
             if lname == 'dense':
                 if meth == 'blockwise':
-                    _model_cols(ctx, 'implicit_inverse blockwise', 5, [K, 2], pd, eta, ystk, out, cols, [A, B], sc_blk)
+                    _model_cols(ctx, 'implicit_inverse blockwise', 5, [K, 2], a, pd, eta, ystk, out, cols, [A, B], sc_blk)
                 else:
-                    _model_cols(ctx, f'implicit_inverse {meth}', 4, [K, mi], pd, eta, ystk, out, cols, [Minv], sc_res)
+                    _model_cols(ctx, f'implicit_inverse {meth}', 4, [K, mi], a, pd, eta, ystk, out, cols, [Minv], sc_res)
                 ctx.exact(f'implicit_inverse({meth}): vorticity and tracers unchanged',
                           [np.asarray(inv.vorticity).tolist(), np.asarray(inv.tracers['q']).tolist()],
                           [np.asarray(y.vorticity).tolist(), np.asarray(y.tracers['q']).tolist()])
@@ -369,20 +449,20 @@ def r_wrappers(ctx, a):
     div, T, lnps, vort, q = _state(a, p, {'kind': 'random', 'seed': a['seed']})
     st = _mkstate(div, T, lnps, vort, q); x = _stk(st)
     cols = _pick_cols(M_, L_, a['ncols'], a['seed'])
-    lam = p.coords.horizontal.laplacian_eigenvalues
+    lam = _lam_ref(a, p.coords.horizontal)
     # the time-reversed solve inverts M(-eta)
     Mneg, Minvneg, *_ = _inverses(p, -eta)
-    absL = np.abs(Mneg - np.eye(n)) / abs(eta)
+    absL = np.abs(Mneg - np.eye(n)) / abs(eta) if eta else np.abs(_inverses(p, 1.0)[0] - np.eye(n))
     sc_L = SLOP * float(np.einsum('lij,jml->iml', absL, np.abs(x)).max()) + 1e-300
     sc_res = SLOP * float(np.einsum('lij,jml->iml', _absmm(Minvneg, Mneg), np.abs(x)).max()) + 1e-300
     tr = ti.TimeReversedImExODE(p)
     t = tr.implicit_terms(st)
-    _model_cols(ctx, 'TimeReversedImExODE.implicit_terms', 7, [K, 0], p, eta, x, _stk(t), cols, [], sc_L)
+    _model_cols(ctx, 'TimeReversedImExODE.implicit_terms', 7, [K, 0], a, p, eta, x, _stk(t), cols, [], sc_L)
     y = st - eta * t
     inv = tr.implicit_inverse(y, eta)
-    _model_cols(ctx, 'TimeReversedImExODE.implicit_inverse', 8, [K, 0], p, eta, _stk(y), _stk(inv), cols, [Minvneg], sc_res)
+    _model_cols(ctx, 'TimeReversedImExODE.implicit_inverse', 8, [K, 0], a, p, eta, _stk(y), _stk(inv), cols, [Minvneg], sc_res)
     for l in range(len(lam)):
-        ctx.corr('matrix inverted by the time-reversed solve', Mneg[l], ctx.model.call(9, [K], _cfg_arrs(p, eta, lam[l])),
+        ctx.corr('matrix inverted by the time-reversed solve', Mneg[l], ctx.model.call(9, [K], _cfg_arrs(a, eta, lam[l])),
                  scale=float(np.abs(Mneg[l]).max()))
     res = np.abs(np.einsum('lij,ljk->lik', Minvneg, Mneg) - np.eye(n))
     bound = 2.0 ** -36 * _absmm(Minvneg, Mneg).max(axis=(1, 2), keepdims=True)
@@ -397,13 +477,145 @@ def r_wrappers(ctx, a):
     stt = _mkstate(div, T, lnps, vort, q, sim_time=sim_time)
     tt = pt.implicit_terms(stt)
     ctx.exact('PrimitiveEquationsWithTime.implicit_terms sim_time', float(tt.sim_time), 0.0)
-    _model_cols(ctx, 'PrimitiveEquationsWithTime.implicit_terms', 3, [K, 0], p, eta, x, _stk(tt), cols, [], sc_L)
+    _model_cols(ctx, 'PrimitiveEquationsWithTime.implicit_terms', 3, [K, 0], a, p, eta, x, _stk(tt), cols, [], sc_L)
     yt = stt - eta * tt
     it = pt.implicit_inverse(yt, eta)
-    _model_cols(ctx, 'PrimitiveEquationsWithTime.implicit_inverse', 4, [K, 0], p, eta, _stk(yt), _stk(it), cols, [Minvp], sc_resp)
+    _model_cols(ctx, 'PrimitiveEquationsWithTime.implicit_inverse', 4, [K, 0], a, p, eta, _stk(yt), _stk(it), cols, [Minvp], sc_resp)
     ctx.oracle_close('with time: implicit_inverse(x - eta*implicit_terms(x)) = x', _stk(it), x, scale=sc_resp)
     ctx.oracle('with time: sim_time is preserved by the resolvent', float(it.sim_time) == sim_time,
                {'sim_time': sim_time, 'got': float(it.sim_time)})
+
+
+def _fresh(a, **over):
+    """A newly constructed PrimitiveEquations (bypassing the plugin cache)."""
+    b = dict(a, **over); key = None
+    saved = dict(_pes); _pes.clear()
+    try:
+        return _primitive(b, b.get('matmul'))
+    finally:
+        _pes.clear(); _pes.update(saved)
+
+
+def _same(x, y):
+    return bool(np.array_equal(np.asarray(x), np.asarray(y)))
+
+
+def r_robust(ctx, a):
+    """Forms of the inputs, purity / state across calls, jit, vmap and leading batch axes, error paths."""
+    import jax
+    m = J(); jnp = m['jnp']; pe = m['pe']
+    p = _primitive(a); K = p.coords.vertical.layers; eta = a['eta']; n = 2 * K + 1
+    M_, L_ = p.coords.horizontal.modal_shape
+    div, T, lnps, vort, q = _state(a, p, {'kind': 'random', 'seed': a['seed']})
+    st = _mkstate(div, T, lnps, vort, q); x = _stk(st)
+    Mx, Minv, S1, A, S2, B = _inverses(p, eta)
+    absL = np.abs((Mx - np.eye(n)) / eta) if eta else np.abs(_inverses(p, 1.0)[0] - np.eye(n))
+    sc_L = SLOP * float(np.einsum('lij,jml->iml', absL, np.abs(x)).max()) + 1e-300
+    Dinv = np.zeros_like(Mx); Dinv[:, :K, :K] = A; Dinv[:, K:, K:] = B
+    sc = SLOP * float(max(np.einsum('lij,jml->iml', _absmm(Minv, Mx), np.abs(x)).max(),
+                          np.einsum('lij,jml->iml', _absmm(Dinv, np.abs(Mx)) @ np.abs(Mx), np.abs(x)).max())) + 1e-300
+    METH = ('split', 'stacked', 'blockwise')
+    t0 = p.implicit_terms(st); L0 = _stk(t0); y = st - eta * t0
+    inv0 = {me: _stk(p.implicit_inverse(y, eta, me)) for me in METH}
+    # (a) purity and interleaving with a configuration that differs in ONE field
+    vary = a['vary']
+    over = {'radius': {'radius': a['radius'] * 2}, 'kappa': {'kappa': a['kappa'] * 1.5}, 'R': {'R': a['R'] + 1.0},
+            'tref': {'tref': [a['tref'][0] + 8.0] + list(a['tref'][1:])}, 'matmul': {'matmul': 'sparse'}}[vary]
+    p2 = _fresh(a, **over)
+    for who, pp in (('second configuration', p2), ('first configuration again', p)):
+        tt = pp.implicit_terms(st); yy = st - eta * tt
+        for me in METH:
+            ctx.oracle_close(f'interleaved configurations differing in one field ({vary}): resolvent of the {who}  [method={me}]',
+                             _stk(pp.implicit_inverse(yy, eta, me)), x, scale=4 * sc)
+    ctx.oracle('repeated evaluation is bit-identical (implicit_terms, implicit_inverse)',
+               _same(_stk(p.implicit_terms(st)), L0) and all(_same(_stk(p.implicit_inverse(y, eta, me)), inv0[me]) for me in METH))
+    pf = _fresh(a)
+    ctx.oracle('a freshly constructed equal object gives bit-identical results',
+               _same(_stk(pf.implicit_terms(st)), L0) and all(_same(_stk(pf.implicit_inverse(y, eta, me)), inv0[me]) for me in METH))
+    # (b) attribute re-assignment is honoured (no stale cached tables)
+    if vary == 'tref':
+        pr = _fresh(a); pr.implicit_terms(st); pr.implicit_inverse(y, eta)
+        pr.reference_temperature = np.asarray(over['tref'], dtype=np.float64)
+        ctx.oracle('re-assigned reference_temperature is honoured',
+                   _same(_stk(pr.implicit_terms(st)), _stk(p2.implicit_terms(st))) and
+                   _same(_stk(pr.implicit_inverse(y, eta, 'blockwise')), _stk(p2.implicit_inverse(y, eta, 'blockwise'))))
+    # (c) cached tables are not modified by the calls
+    b = np.asarray(a['b'], dtype=np.float64)
+    ctx.oracle('cached tables unchanged after use (eigenvalues, thickness, centers, reference temperature)',
+               _same(p.coords.horizontal.laplacian_eigenvalues, _lam_ref(a, p.coords.horizontal)) and
+               _same(p.coords.vertical.layer_thickness, np.diff(b)) and _same(p.coords.vertical.centers, (b[1:] + b[:-1]) / 2) and
+               _same(p.reference_temperature, np.asarray(a['tref'], dtype=np.float64)))
+    # (d) jit (static step size) = eager
+    ctx.oracle_close('jit(implicit_terms) = implicit_terms', _stk(jax.jit(p.implicit_terms)(st)), L0, scale=sc_L)
+    for me in METH:
+        ctx.oracle_close(f'jit(implicit_inverse) = implicit_inverse  [method={me}]',
+                         _stk(jax.jit(lambda s_, me=me: p.implicit_inverse(s_, eta, me))(y)), inv0[me], scale=sc)
+    # (e) vmap over a batch (size K, different content per slice) and a leading batch axis
+    Bn = K
+    parts = [_state(a, p, {'kind': 'random', 'seed': a['seed'] + 1 + i}) for i in range(Bn)]
+    parts[0] = (div, T, lnps, vort, q)
+    stb = _mkstate(*[np.stack([pt[j] for pt in parts]) for j in range(5)])
+    per = [p.implicit_terms(_mkstate(*pt)) for pt in parts]
+    Lb = np.stack([_stk(t) for t in per])
+    xb = np.stack([np.concatenate(pt[:3], axis=0) for pt in parts])
+    tb = jax.vmap(p.implicit_terms)(stb)
+    stkb = lambda s_: np.concatenate([np.asarray(s_.divergence), np.asarray(s_.temperature_variation), np.asarray(s_.log_surface_pressure)], axis=1)
+    ctx.oracle_close('vmap(implicit_terms) = slice-wise implicit_terms', stkb(tb), Lb, scale=sc_L)
+    ctx.oracle_close('implicit_terms with a leading batch axis (dense) = slice-wise', stkb(_primitive(a, 'dense').implicit_terms(stb)), Lb, scale=sc_L)
+    yb = stb - eta * tb
+    for me in METH:
+        ctx.oracle_close(f'vmap(implicit_inverse)(x - eta*implicit_terms(x)) = x  [method={me}]',
+                         stkb(jax.vmap(lambda s_, me=me: p.implicit_inverse(s_, eta, me))(yb)), xb, scale=4 * sc)
+    ctx.oracle_close('implicit_inverse with a leading batch axis (split): resolvent', stkb(p.implicit_inverse(yb, eta, 'split')), xb, scale=4 * sc)
+    # (f) forms of the step size
+    forms = [('np.float64', np.float64(eta)), ('0-d array', np.array(eta))]
+    if float(eta) == int(eta): forms.append(('python int', int(eta)))
+    if float(np.float32(eta)) == eta: forms.append(('np.float32', np.float32(eta)))
+    for nm, e in forms:
+        for me in METH:
+            ctx.oracle_close(f'step size given as {nm}  [method={me}]', _stk(p.implicit_inverse(y, e, me)), inv0[me], scale=sc)
+    # (g) forms of the reference temperature and of the state
+    tr = np.asarray(a['tref'], dtype=np.float64)
+    tforms = []
+    if (tr == np.round(tr)).all(): tforms.append(('integer-typed', tr.astype(np.int64)))
+    sv = np.zeros(2 * K); sv[::2] = tr; sv = sv[::2]; sv.setflags(write=False)
+    tforms.append(('read-only strided view', sv))
+    for nm, tf in tforms:
+        pe_t = pe.PrimitiveEquations(tf, np.zeros((M_, L_)), p.coords, p.physics_specs)
+        ctx.oracle_close(f'reference temperature given as {nm}: implicit_terms', _stk(pe_t.implicit_terms(st)), L0, scale=sc_L)
+        for me in METH:
+            ctx.oracle_close(f'reference temperature given as {nm}: implicit_inverse  [method={me}]',
+                             _stk(pe_t.implicit_inverse(y, eta, me)), inv0[me], scale=sc)
+        for spm in ('dense', 'sparse'):
+            ctx.oracle_close(f'reference temperature given as {nm}: get_temperature_implicit {spm}',
+                             np.asarray(pe.get_temperature_implicit(st.divergence, p.coords.vertical, tf, a['kappa'], method=spm)),
+                             L0[K:2 * K], scale=sc_L)
+    st32 = jax.tree_util.tree_map(lambda v: v.astype(jnp.float32), st)
+    sti = jax.tree_util.tree_map(lambda v: jnp.round(v * 8).astype(jnp.int64), st)
+    ctx.oracle_close('float32 state (exactly representable values): implicit_terms', _stk(p.implicit_terms(st32)), L0, scale=sc_L)
+    ctx.oracle_close('integer-typed state: implicit_terms', _stk(p.implicit_terms(sti)), 8 * L0, scale=8 * sc_L)
+    y32 = jax.tree_util.tree_map(lambda v: v.astype(jnp.float32), jax.tree_util.tree_map(lambda v: jnp.round(v * 8) / 8, y))
+    y64 = jax.tree_util.tree_map(lambda v: v.astype(jnp.float64), y32)
+    for me in METH:
+        ctx.oracle_close(f'float32 state: implicit_inverse  [method={me}]', _stk(p.implicit_inverse(y32, eta, me)),
+                         _stk(p.implicit_inverse(y64, eta, me)), scale=4 * sc)
+    ste = pe.State(st.vorticity, st.divergence, st.temperature_variation, st.log_surface_pressure)    # tracers default: {}
+    te = p.implicit_terms(ste)
+    ctx.oracle('state without tracers', _same(_stk(te), L0) and te.tracers == {} and
+               all(_same(_stk(p.implicit_inverse(ste - eta * te, eta, me)), inv0[me]) for me in METH))
+    # (h) a state exactly at rest
+    z = jax.tree_util.tree_map(jnp.zeros_like, st)
+    ctx.exact('state at rest: zero tendency and zero solve', [float(np.abs(_stk(p.implicit_terms(z))).max())] +
+              [float(np.abs(_stk(p.implicit_inverse(z, eta, me))).max()) for me in METH], [0.0] * 4)
+    # (i) rejected options
+    def raises(f, exc):
+        try: f(); return False
+        except exc: return True
+    ctx.exact('unknown method / vertical_matmul_method / traced step size are rejected',
+              [raises(lambda: p.implicit_inverse(y, eta, 'direct'), ValueError),
+               raises(lambda: _fresh(a, matmul='cumsum').implicit_terms(st), ValueError),
+               raises(lambda: jax.jit(lambda s_, e_: p.implicit_inverse(s_, e_))(y, eta), TypeError)], [True] * 3)
+    ctx.count('robust vary=' + vary)
 
 
 _sws = {}
@@ -423,7 +635,9 @@ def _shallow(a):
 def r_shallow(ctx, a):
     m = J(); jnp = m['jnp']; sw = m['sw']; ti = m['ti']
     eq = _shallow(a); eta = a['eta']; phi = np.asarray(a['phi'], dtype=np.float64); layers = len(phi)
-    grid = eq.coords.horizontal; M_, L_ = grid.modal_shape; lam = grid.laplacian_eigenvalues
+    grid = eq.coords.horizontal; M_, L_ = grid.modal_shape; lam = _lam_ref(a, grid)
+    ctx.exact('laplacian_eigenvalues = -l(l+1)/radius^2 (recomputed from the grid definition)',
+              np.asarray(grid.laplacian_eigenvalues, dtype=np.float64).tolist(), lam.tolist())
     rng = np.random.default_rng(a['seed'])
     vort = util.small_rationals(rng, (layers, M_, L_)); d = util.small_rationals(rng, (layers, M_, L_))
     ph = util.small_rationals(rng, (layers, M_, L_))
@@ -476,4 +690,5 @@ def r_shallow(ctx, a):
                      scale=4 * sc_t)
 
 
-RUNNERS = {'weights': r_weights, 'matrix': r_matrix, 'solve': r_solve, 'wrappers': r_wrappers, 'shallow': r_shallow}
+RUNNERS = {'weights': r_weights, 'matrix': r_matrix, 'solve': r_solve, 'wrappers': r_wrappers, 'shallow': r_shallow,
+           'robust': r_robust}
